@@ -665,7 +665,9 @@ static void emitFunction(Function &F, raw_ostream &O) {
                 case Instruction::AShr: op = ">>"; sgn = true; break;
                 default: errs() << "binop " << I << "\n"; exit(2);
                 }
-                if (w == 1) O << "    " << r << " = (" << a << " " << op << " " << b << ") & 1;\n";
+                bool nsw = false; if (auto *OBO = dyn_cast<OverflowingBinaryOperator>(BO)) nsw = OBO->hasNoSignedWrap() && w > 1 && w <= 64 && (BO->getOpcode() == Instruction::Add || BO->getOpcode() == Instruction::Sub || BO->getOpcode() == Instruction::Mul);
+                if (nsw) O << "    " << r << " = (" << T << ")(" << sext(a, w) << " " << op << " " << sext(b, w) << "); /* nsw: signed arithmetic, overflow is undefined behaviour (checked in safety mode) */\n";
+                else if (w == 1) O << "    " << r << " = (" << a << " " << op << " " << b << ") & 1;\n";
                 else if (sgn) O << "    " << r << " = (" << T << ")(" << sext(a, w) << " " << op << " " << (BO->getOpcode() == Instruction::AShr ? b : sext(b, w)) << ");\n";
                 else O << "    " << r << " = (" << T << ")(" << a << " " << op << " " << b << ");\n";
             } else if (auto *IC = dyn_cast<ICmpInst>(&I)) {
